@@ -1,0 +1,32 @@
+//go:build verif
+// +build verif
+
+package util
+
+import "unsafe"
+
+// Read-only exports for the verification harness (Base/UBuffer.v correspondence, check C13).
+
+// VerifState returns b.off, len(b.buf), cap(b.buf), whether b.buf is nil, and the address of the first
+// cell of the backing array of b.buf (0 when the capacity is 0).
+func (b *Buffer) VerifState() (off, length, capacity int, isNil bool, base uintptr) {
+	off, length, capacity, isNil = b.off, len(b.buf), cap(b.buf), b.buf == nil
+	if capacity > 0 {
+		base = uintptr(unsafe.Pointer(&b.buf[:capacity][0]))
+	}
+	return
+}
+
+// VerifArray returns the whole backing array of b.buf, b.buf[:cap(b.buf)] (nil for a nil b.buf).
+func (b *Buffer) VerifArray() []byte {
+	if b.buf == nil {
+		return nil
+	}
+	return b.buf[:cap(b.buf)]
+}
+
+// VerifPoolNum is poolNum.
+func (p *BufferPool) VerifPoolNum(n int) int { return p.poolNum(n) }
+
+// VerifBaseline returns the five class bounds.
+func (p *BufferPool) VerifBaseline() [5]int { return p.baseline }
